@@ -40,8 +40,21 @@ def cha_targets(ctx):
             for st in subterms(t):
                 if st[0] == "field" and st[2] == A.f_subscribers:
                     return True
-                if st[0] == "upvar" or (st[0] == "param" and site.body.is_closure()):
-                    return True  # closure parameters/captures: element handed in by retain etc.
+                if st[0] == "param" and site.body.is_closure() and st[1] >= 2:
+                    return True  # closure parameter: element handed in by retain / for_each etc.
+                if st[0] == "upvar" and site.body.is_closure():
+                    # a captured value: what it is in the creating function (a subscriber the
+                    # caller supplied and moved into its own thread is not from the list)
+                    up = ctx.prog.upvar_term(site.body, st[1])
+                    if up is None:
+                        return True
+                    ub, ut = up
+                    for st2 in subterms(ut):
+                        if st2[0] == "field" and st2[2] == A.f_subscribers:
+                            return True
+                        if st2[0] == "upvar" or (st2[0] == "param" and ub.is_closure()):
+                            return True
+                    continue
                 if st[0] == "call" and st[1][0] == site.body.path and st[1] not in seen:
                     seen.add(st[1])
                     term = site.body.blocks[st[1][1]]["term"]
